@@ -1,4 +1,4 @@
-"""Per-property explanation strings for the evidence files."""
+"""Per-property texts for the evidence files and MANIFEST.json."""
 
 ASSUMPTIONS = [
     "A1: the db object handed to a trie behaves as a mapping; keccak has no collisions",
@@ -9,4 +9,97 @@ ASSUMPTIONS = [
     "A4: no monkey-patching / subclass overriding of the analysed classes",
 ]
 
-EXPLANATION = {}
+# id -> (decided clauses, not decided, technique)
+DOC = {
+    "C01": ("a lookup on a complete db cannot raise (EXC1 with the traversal summary ABS1 and dispatch exhaustiveness ABS2 as "
+            "feasibility oracle); set(k, b'') is routed to delete (ROUTE1); dict syntax / exists are the method semantics (SIB1); "
+            "a value slot is returned only when the key is fully consumed (ABS3); lookups have no write effect (EFF4)",
+            "equality with a map model over all histories (split/merge arithmetic of insert and delete)",
+            "exception-flow + abstract interpretation (Kind/Len) over enumerated paths; effect summaries"),
+    "C02": ("embed-vs-hash threshold is `len < 32` in writer and reader (SIB9); hex-prefix flag table equals the Yellow Paper table "
+            "(SIB6); root always hashed and stored, blank root is the constant (ABS6); branch normalised on every path that may blank "
+            "a slot (TS3); no empty extension path can be built (TS4); branch arity literals agree (SIB11)",
+            "root equality with the reference MPT; order independence",
+            "writer/reader agreement by constant propagation; typestate over enumerated paths; interval domain"),
+    "C03": ("every visited node is in the proof before descent/return (TS5); verifier db is fresh, filled only from proof nodes, keyed "
+            "by their keccak (EFF3, AL5); only BadTrieProof or argument validation can leave get_from_proof (EXC1, EXC5)",
+            "that no forged list of well-formed nodes yields a wrong value (cryptographic / value level)",
+            "exception-flow with context-sensitive feasibility; def-use binding of db keys; accumulator typestate"),
+    "C04": ("only the pruning arm deletes db entries, on every call chain from every public entry (EFF2); every db write is "
+            "db[keccak(v)] = v (EFF3); do_deletes is the outer is_pruning (PROV4, PROV12); at_root is a non-pruning view of the same db "
+            "(AL4); the root pointer is assigned after the last write (ORD1)",
+            "keccak collision freedom, honesty of the db object (assumed)",
+            "interprocedural must-guard analysis on effect summaries; def-use binding; path ordering"),
+    "C05": ("outer state is assigned only on paths after the commit block completed normally (ORD5); ScratchDB commit discipline "
+            "(ORD4); the batch shares no mutable outer state (AL2a); no outer ref-count increment after the commit (AL2b); the batch trie "
+            "is constructed pruning over a ScratchDB of self.db (PROV8); do_deletes provenance (PROV4)",
+            "canonical root of the result; 'no intermediate node added' as a value-level fact",
+            "outcome-based path analysis of generator context managers; alias / freshness analysis"),
+    "C06": ("reference counts are incremented only together with the db write and decremented only on the success path (EFF1 pairing, "
+            "ORD3); every visited node is scheduled for pruning (TS1); every absorbed node is scheduled (TS2); squash does not count "
+            "twice (AL2b)",
+            "exact equality db == reachable set; the short-root special case",
+            "typestate (must-pass-through) over enumerated paths; effect pairing"),
+    "C07": ("every db read on the entry points is covered by a KeyError -> Missing* conversion (EXC2); constructor-argument "
+            "provenance of the Missing* exceptions (EXC3); all fallible reads precede the first effective write (ORD2); pruning applied "
+            "on success only and the pending set reset on all exits (ORD3); _PartialTraversal never escapes (EXC4)",
+            "convergence of retry loops",
+            "exception-flow analysis; provenance of constructor arguments by symbolic terms; read/write ordering"),
+    "C08": ("partial-path is raised iff the residual key is non-empty and only for leaf/extension (ABS1); traverse and traverse_from "
+            "share one tail, root_node is the zero-length traverse (SIB2); annotate_node fields by node kind (SIB8, ABS3); all 16 child "
+            "slots enumerated ascending (SIB11); one db read per hop (ABS5); simulated node trimmed by exactly len(tail) (PROV7); "
+            "frontier-cache coherence (PROV5)",
+            "'blank exactly when no stored key starts with path'",
+            "abstract traversal summary (Kind x Len); sibling skeleton comparison; provenance"),
+    "C10": ("strictness of the two successor comparisons (REL1); keys/values are projections of items/nodes with one filter (SIB3); "
+            "left-to-right, value-before-children, leftmost-first (ITER1); key reconstruction adds exactly the traversed segment (ABS4 "
+            "instances); frontier-cache coherence (PROV5)",
+            "ordering and completeness of the emitted sequence as a value-level fact",
+            "relation normal forms on provenance-identified operands; sibling projection comparison"),
+    "C11": ("the receiver is never mutated and results are fresh objects (AL1); nearest_* return an element of the set (PROV1); "
+            "PerfectVisibility / FullDirectionalVisibility only from the emptiness / out-of-range probe (EXC7); explore result = copy - "
+            "old + {old+seg} unfiltered (PROV6); serialize/deserialize are duals (SIB10); Nibbles validation (VAL4)",
+            "the antichain invariant over all reachable sets, commutation, the distance metric",
+            "alias / freshness analysis; exception provenance; dual-pair comparison"),
+    "C12": ("only _hash_and_save writes, nothing deletes (EFF1); db[keccak(n)] = n (EFF3); the root is assigned only from the "
+            "completed _set result (ORD1); delete / delete_subtrie routing (ROUTE2); bit -> child convention identical at every site "
+            "(SIB4); dispatch exhaustive (ABS2); no kv->kv chain can be built, subtree erasure only under if_delete_subtrie (TS7)",
+            "map model including the NodeOverrideError cases; canonical shape after arbitrary histories",
+            "effect summaries; path ordering; sibling agreement; typestate over enumerated paths"),
+    "C13": ("the walkers agree with BinaryTrie._get on descent conditions (SIB4); the node is yielded before every descent (TS6); the "
+            "verifier db is keyed by keccak (EFF3); helpers never write and yield only db-loaded values (EFF4, PROV3)",
+            "sufficiency for every key below a prefix; unforgeability",
+            "sibling agreement; typestate; effect summaries"),
+    "C14": ("delete writes the configured default (PROV2); sibling orientation and bit direction agree in _get / set / calc_root "
+            "(SIB5); db[keccak(n)] = n (EFF3); nothing is ever deleted from the db (EFF1); reads precede writes in set (ORD2); returned "
+            "hashes are root->leaf (PROV10); blank reads as KeyError in get and branch alike (SIB12); from_db forwards its "
+            "configuration (PROV13); argument validation (VAL1/2)",
+            "Merkle-root equality with the full tree",
+            "provenance; sibling agreement; def-use binding; effect summaries"),
+    "C15": ("the shortness check dominates the only branch write and is the exact bound (ORD6, REL2); the same-key path writes only "
+            "the value, the other-key path exactly one branch slot (EFF5); defensive copy in, fresh tuple out (AL3); the root is derived "
+            "on demand from key/value/branch (PROV11)",
+            "equality with the tree over all update streams (bit arithmetic locating the branch point)",
+            "dominance on enumerated paths; relation normal form; per-path effect sets; freshness"),
+    "C16": ("hex-prefix flag table writer == reader == specification (SIB6); binary node layout writer == reader, type bytes agree "
+            "(SIB7); every malformed class raises InvalidNode (EXC6); kind classifiers agree, leaf/extension key duals (SIB8); the reverse "
+            "nibble table is derived from the forward table (PROV9)",
+            "bit-level arithmetic of encode_to_bin / decode_from_bin and of the key-path packing",
+            "abstract evaluation by constant propagation under finite case splits; writer/reader layout comparison"),
+    "C17": ("the wrapped db is written only on the resumed-normally outcome of the yield, the exception outcome re-raises, the cache "
+            "is reset on every exit (ORD4); deletes are guarded by do_deletes and the DELETED marker (PROV12); __setitem__ / "
+            "__delitem__ touch only the cache (EFF1); read-through decision tables of __getitem__ / __contains__ (ABS7); copy() is "
+            "fresh (AL3); readers do not write (EFF4)",
+            "dict semantics of the wrapped object (assumed)",
+            "outcome-based path analysis of the generator context manager; decision tables by path enumeration"),
+    "C18": ("every parameter of every public entry point that reaches a byte-consuming sink is dominated by the right validator, "
+            "which also dominates every write effect (VAL1, VAL2); constructor guards (VAL3); Nibbles has exactly three exits (VAL4)",
+            "nothing further within the scope stated in DESIGN.md 4.18",
+            "taint-style validation dominance over enumerated paths, interprocedural forwarding"),
+}
+
+EXPLANATION = {
+    pid: "Static analysis of the current source of /repo/trie (nothing is executed). Decided, for all paths of the code: %s. "
+         "NOT decided (value-level remainder): %s." % (d[0], d[1])
+    for pid, d in DOC.items()
+}
